@@ -202,11 +202,30 @@ Proof.
   rewrite V in G. discriminate.
 Qed.
 
+Lemma loads_fields c req r s : loads c req r = Ok s -> session_nooa s = 0 /\ not_on_or_after s = 0 /\ acc s = [].
+Proof.
+  unfold loads. destruct (response_sig_stage req r); [|discriminate]. unfold loads_rest.
+  destruct (asynch c); [|intros H; injection H as <-; repeat split; reflexivity].
+  match goal with |- (match ?x with _ => _ end) = _ -> _ => destruct x end.
+  - match goal with |- (match ?x with _ => _ end) = _ -> _ => destruct x as [[|]|] end; intros H; try discriminate;
+      injection H as <-; repeat split; reflexivity.
+  - destruct (allow_unsolicited c); intros H; [|discriminate]. injection H as <-. repeat split; reflexivity.
+Qed.
+
+Lemma residue_fields c req s r :
+  session_nooa (parse_assertion_residue c req s r) = session_nooa s /\
+  not_on_or_after (parse_assertion_residue c req s r) = not_on_or_after s.
+Proof.
+  unfold parse_assertion_residue. destruct (check_assertions c (r_irt r) req false false s (r_assertions r)); [|split; reflexivity].
+  destruct (verify_decrypted (decrypted_prefix (r_encrypted r))); split; reflexivity.
+Qed.
+
 (* acceptance, inverted *)
 Record accepted_facts (c : cfg) (r : response) (o : outcome) : Prop := {
   ac_valid : r_valid_instance r = true;
   ac_loads : exists req0 s0, loads c req0 r = Ok s0 /\ (wrs c = true -> req0 = true);
   ac_verify : exists req s s', verify c req s r = Ok (Some s') /\ (was c = true -> req = true) /\
+                session_nooa s = 0 /\ not_on_or_after s = 0 /\
                 o_assertions o = acc s' /\ o_came_from o = came_from s' /\
                 o_nooa o = (if session_nooa s' >? 0 then session_nooa s' else not_on_or_after s');
   ac_either : waors c = true -> (loads c true r <> Err SignatureError /\ is_ok (loads c true r) = true) \/
@@ -225,7 +244,7 @@ Proof.
       injection H as <-. constructor; cbn.
       * exact V.
       * exists true, sA. split; [assumption|auto].
-      * exists true, sA, s'. repeat split; auto.
+      * destruct (loads_fields _ _ _ _ L1) as (F1 & F2 & _). exists true, sA, s'. repeat split; auto.
       * intros _. left. rewrite L1. split; [discriminate|reflexivity].
     + destruct (is_signature_error e); [|discriminate]. destruct (was c) eqn:Wa; [discriminate|].
       destruct (verify c false (parse_assertion_residue c true sA r) r) as [[s'|]|] eqn:V2; try discriminate.
@@ -233,7 +252,8 @@ Proof.
       injection H as <-. constructor; cbn.
       * exact V.
       * exists true, sA. split; [assumption|auto].
-      * exists false, (parse_assertion_residue c true sA r), s'. repeat split; auto; intros; congruence.
+      * destruct (loads_fields _ _ _ _ L1) as (F1 & F2 & _). destruct (residue_fields c true sA r) as [G1 G2].
+        exists false, (parse_assertion_residue c true sA r), s'. repeat split; auto; try congruence; intros; congruence.
       * intros _. left. rewrite L1. split; [discriminate|reflexivity].
   - destruct (is_sigver_error eA); [|discriminate]. destruct (wrs c) eqn:Wr; [discriminate|].
     destruct (loads c false r) as [sB|] eqn:L2; [|discriminate].
@@ -244,7 +264,7 @@ Proof.
       injection H as <-. constructor; cbn.
       * exact V.
       * exists false, sB. split; [assumption|intros; congruence].
-      * exists true, sB, s'. repeat split; auto.
+      * destruct (loads_fields _ _ _ _ L2) as (F1 & F2 & _). exists true, sB, s'. repeat split; auto.
       * intros _. right. now exists sB, s'.
     + destruct (is_signature_error e); [|discriminate]. destruct (was c) eqn:Wa; [discriminate|].
       destruct (verify c false (parse_assertion_residue c true sB r) r) as [[s'|]|] eqn:V2; try discriminate.
@@ -252,6 +272,7 @@ Proof.
       injection H as <-. constructor; cbn.
       * exact V.
       * exists false, sB. split; [assumption|intros; congruence].
-      * exists false, (parse_assertion_residue c true sB r), s'. repeat split; auto; intros; congruence.
+      * destruct (loads_fields _ _ _ _ L2) as (F1 & F2 & _). destruct (residue_fields c true sB r) as [G1 G2].
+        exists false, (parse_assertion_residue c true sB r), s'. repeat split; auto; try congruence; intros; congruence.
       * intros; congruence.
 Qed.
